@@ -11,6 +11,7 @@ the decoded object as an abstract tree, and TLC judges decoded = input under the
 from __future__ import annotations
 
 import json
+from concurrent.futures import ThreadPoolExecutor
 
 from vlib import tlc
 
@@ -55,6 +56,11 @@ def _convert(T, x, rec):
     rec["w"] = tv.abstract(H, out)
 
 
+def replay(ctx, rp):
+    wd = tlc.prepare_dir(ctx.build / "tlc", ["fn"])
+    tv.replay_pair(ctx, wd, rp, wire="json", convert=_convert)
+
+
 def run(ctx):
     H = tv.load()
     level = 0 if ctx.quick else 1
@@ -63,13 +69,17 @@ def run(ctx):
     (wd / "extra.ndjson").write_text(json.dumps({"t": {"k": "int32"}}) + "\n")
 
     # ---- (1) the specification on its own: typing of the pools, reflexivity and separation of the equality ------
-    out = tlc.evaluate(wd, "TypedValuesSelf", env=env, timeout=3000)
-    if '"selfcheck"' not in out:
-        raise RuntimeError("TypedValuesSelf did not reach the end of SelfCheck")
+    # (runs concurrently with the enumeration below: two independent TLC processes; joined before any verdict is used)
+    pool = ThreadPoolExecutor(max_workers=1)
+    selfcheck = pool.submit(tlc.evaluate, wd, "TypedValuesSelf", env=env, timeout=3000)
 
     # ---- (2)-(4) Gen, the real code, Verdict -----------------------------------------------------------------
     cases, verdict, stats = tv.roundtrip_check(ctx, wd, wire="json", convert=_convert, level=level, with_nd=True,
                                                nextra=25 if ctx.quick else 200)
+    out = selfcheck.result()
+    pool.shutdown()
+    if '"selfcheck"' not in out:
+        raise RuntimeError("TypedValuesSelf did not reach the end of SelfCheck")
     if stats["with_missing"] == 0 or stats["depth2_cases"] == 0:
         raise RuntimeError(f"vacuous universe: {stats}")
 
